@@ -7,6 +7,7 @@
    it is covered by the correspondence (all digraphs <= 3 tasks x all runners, sampled beyond) and by
    the oracle on implementation runs (exact hang detection by the deterministic scheduler). *)
 From DoitV Require Import Base Dispatch Runner Parallel DispatchP DispatchInv RunnerTr RunnerP ParallelP CycleP AncP HoldP HoldG CompleteP ParHoldP TermP.
+From DoitV Require Import ParStepP ParLiveP ParTermP ParOutcomeLiveP ParLiveEx.
 Open Scope N_scope.
 
 (* a task lying on a dependency cycle through task_dep (explicit, wild-card, implicit file
@@ -224,3 +225,92 @@ Example C09_parallel_nonvacuous :
     ([PE (EGetStatus 3); PE (EExecute 3); PStart 3 1; PEnd 3 1; PE (ESave 3); PE (ESuccess 3); PE EClose; PE EHoldError], 3) /\
   run_parallel ex09c (fun _ _ => 0) (fun _ => 0) false false true 100 2 []%nat [0] = ([PE EClose; PE (ECycleError [0; 1; 0])], 3).
 Proof. split; vm_compute; reflexivity. Qed.
+
+(* ===== liveness of the parallel runner models (Proofs/ParStepP.v, ParLiveP.v, ParTermP.v, ParOutcomeLiveP.v, by sub-agent) ===== *)
+(* NO HANG.  The main thread of MRunner / MThreadRunner is never blocked for ever in result_q.get(): whatever the
+   table (cyclic or not, finite or not), the flavour, the number of workers, the schedule, the fuel, the model
+   never logs PHang ("nothing to dequeue and no worker can step").  Invariant (Proofs/ParLiveP.v):
+   #workers not exited + #interrupt notices queued = proc_count + #None jobs queued; with
+   proc_count = free_proc + |in flight| (ParHoldP) and proc_count > free_proc after the deadlock test, a result or
+   notice is queued, or a worker is busy, or a task is queued and an idle worker exists. *)
+Theorem C09_parallel_never_hangs :
+  forall tasks wake_rank calc_rank continue_ always proc fuel nprocs sched selection,
+  ~ In PHang (fst (run_parallel tasks wake_rank calc_rank continue_ always proc fuel nprocs sched selection)).
+Proof. exact parallel_never_hangs. Qed.
+Print Assumptions C09_parallel_never_hangs.
+
+(* the blocking point itself: in a state K (the counting invariant WI, proc_count > 0, something in flight) some
+   step is enabled; K is kept by every worker step, so this stays true until the main thread dequeues; every
+   worker step decreases mu = 2 |job_q| + #busy, so with more than mu scheduler steps main_get DOES dequeue *)
+Theorem C09_parallel_blocked_main_can_step :
+  forall p, K p -> p_results p <> [] \/ exists w, worker_enabled p w = true.
+Proof.
+  intros p HK. destruct (p_results p) eqn:E; [right; apply (K_enabled p HK E)|left; discriminate].
+Qed.
+Theorem C09_parallel_worker_step_keeps_K :
+  forall tasks proc p w, worker_enabled p w = true -> K p ->
+  K (worker_step tasks proc p w) /\ (mu (worker_step tasks proc p w) + 1 <= mu p)%nat.
+Proof. intros tasks proc p w He HK. split; [apply worker_step_K; auto|apply worker_step_mu; auto]. Qed.
+Theorem C09_parallel_main_get_dequeues :
+  forall tasks proc fuel p, K p -> (mu p < fuel)%nat -> exists m p', main_get tasks proc fuel p = (Some m, p').
+Proof. exact main_get_some. Qed.
+Print Assumptions C09_parallel_blocked_main_can_step.
+Print Assumptions C09_parallel_worker_step_keeps_K.
+Print Assumptions C09_parallel_main_get_dequeues.
+
+(* TERMINATION.  Over a finite task table there is a bound N (par_enough_fuel: from the table, the selection and
+   nprocs) such that with fuel >= N a parallel run never ends with the model's "did not finish" codes 99 (out of
+   fuel) and 98 (hung / main_get out of its 4*fuel scheduler steps): every graph (cycles end through the two
+   diagnostics), flavour, schedule, flags, oracles *)
+Theorem C09_parallel_terminates :
+  forall tasks univ selection nprocs, finite_table tasks univ ->
+  exists N : nat, forall wake_rank calc_rank continue_ always proc sched fuel, (N <= fuel)%nat ->
+    snd (run_parallel tasks wake_rank calc_rank continue_ always proc fuel nprocs sched selection) <> 99 /\
+    snd (run_parallel tasks wake_rank calc_rank continue_ always proc fuel nprocs sched selection) <> 98.
+Proof. exact parallel_terminates. Qed.
+Theorem C09_parallel_terminates_explicit :
+  forall tasks univ selection, finite_table tasks univ ->
+  forall wake_rank calc_rank continue_ always proc nprocs sched fuel,
+  (par_enough_fuel tasks univ selection nprocs <= fuel)%nat ->
+  snd (run_parallel tasks wake_rank calc_rank continue_ always proc fuel nprocs sched selection) <> 99 /\
+  snd (run_parallel tasks wake_rank calc_rank continue_ always proc fuel nprocs sched selection) <> 98.
+Proof. exact parallel_terminates_explicit. Qed.
+Print Assumptions C09_parallel_terminates.
+Print Assumptions C09_parallel_terminates_explicit.
+
+(* "exit code 98 is unreachable for EVERY fuel" is refuted by the model: below the bound main_get can run out of
+   its own 4*fuel steps (12 workers, fuel 5: 24 worker steps are enabled before the first dequeue) *)
+Theorem C09_parallel_no_98_for_every_fuel_refuted :
+  exists tasks wake_rank calc_rank continue_ always proc fuel nprocs sched selection,
+    snd (run_parallel tasks wake_rank calc_rank continue_ always proc fuel nprocs sched selection) = 98.
+Proof. exact exit_code_98_below_the_fuel_bound. Qed.
+Print Assumptions C09_parallel_no_98_for_every_fuel_refuted.
+
+(* finite acyclic table, enough fuel: run_tasks returns (exit code 0, 1, 2) or an action interrupted it (4) *)
+Theorem C09_parallel_acyclic_completes :
+  forall tasks univ selection, finite_table tasks univ -> (forall k, ~ reach tasks k k) ->
+  forall wake_rank calc_rank continue_ always proc nprocs sched fuel,
+  (par_enough_fuel tasks univ selection nprocs <= fuel)%nat ->
+  let c := snd (run_parallel tasks wake_rank calc_rank continue_ always proc fuel nprocs sched selection) in
+  c <= 2 \/ c = 4.
+Proof. exact parallel_acyclic_completes. Qed.
+Print Assumptions C09_parallel_acyclic_completes.
+
+(* Child.join() / drain: when run_tasks returns normally every worker has exited, proc_count = 0, result_q empty *)
+Theorem C09_parallel_normal_end_all_joined :
+  forall tasks univ selection, finite_table tasks univ ->
+  forall wake_rank calc_rank continue_ always proc nprocs sched fuel p2,
+  (par_enough_fuel tasks univ selection nprocs <= fuel)%nat ->
+  run_core tasks wake_rank calc_rank continue_ always proc fuel nprocs sched selection = (PNormal, p2) ->
+  alive (p_workers p2) = 0%nat /\ p_results p2 = [] /\ p_count p2 = 0%nat.
+Proof. exact parallel_normal_end_all_joined. Qed.
+Print Assumptions C09_parallel_normal_end_all_joined.
+
+Example C09_parallel_liveness_nonvacuous :
+  finite_table exl [0; 1; 2; 3; 4; 5] /\
+  N.of_nat (exl_fuel 2) = 6809 /\ N.of_nat (exl_fuel 3) = 8171 /\
+  (let res := run_parallel exl (fun _ _ => 0) (fun _ => 0) true false true (exl_fuel 2) 2 [1;1;0;1;1;1;0;1]%nat [0; 3] in
+   snd res = 2 /\ pfinished (fst res) 0 /\ pfinished (fst res) 3 /\ ~ In PHang (fst res)) /\
+  (let res := run_parallel exl (fun _ _ => 0) (fun _ => 0) true false false (exl_fuel 3) 3 [2;0;1;3;1;0;2;2;1]%nat [0; 3] in
+   snd res = 2 /\ pfinished (fst res) 0 /\ pfinished (fst res) 3).
+Proof. split; [exact exl_finite|exact par_liveness_nonvacuous]. Qed.
